@@ -1,9 +1,10 @@
 (* Proofs/CodecErrAll.v — C08: the headline statements over the fuel-free [decode] / [encode],
    assembled from CodecErrDec / CodecErrStrict / CodecErrEnc / CodecErrArr, and the witnesses on
-   which the faithful model falsifies the full-strength statements. *)
+   which the faithful model (of /repo after the codec fix wave) still falsifies a full-strength
+   statement. *)
 From Coq Require Import String.
 From PV Require Import Base.Bytes Base.BytesLemmas Base.Res Base.Proto.
-From PV Require Import Gen.Types Gen.CodecFacts Model.Codec Model.CodecDom.
+From PV Require Import Gen.Types Gen.CodecFacts Model.Codec.
 From PV Require Import Proofs.CodecErrDefs Proofs.CodecErrBase Proofs.CodecErrDec Proofs.CodecErrStrict
   Proofs.CodecErrEnc Proofs.CodecErrArr.
 From Coq Require Import ZifyBool.
@@ -17,11 +18,12 @@ Definition lib_dec (r : res (val * bytes)) : Prop :=
 Lemma decode_ok_inv t bs v rest : decode t bs = Ok (v, rest) -> decode_fuel (S (length bs)) t bs = DOk v rest.
 Proof. unfold decode. destruct (decode_fuel _ t bs); cbn; intros H; try discriminate. now injection H as <- <-. Qed.
 
-(* ------------------------------------------------------------------ decode_errors / decode_all_terminates *)
-Theorem decode_errors t bs : hprogress t = true -> lib_dec (decode t bs).
+(* ------------------------------------------------------------------ decode_errors / termination *)
+Theorem decode_errors t bs :
+  hprogress t = true -> (has_prefix t = true -> Z.of_nat (length bs) < count_limit) -> lib_dec (decode t bs).
 Proof.
-  intros Hh. unfold decode.
-  pose proof (decode_terminates t Hh (S (length bs)) bs (Nat.lt_succ_diag_r _)) as Hf.
+  intros Hh Hc. unfold decode.
+  pose proof (decode_terminates t Hh (S (length bs)) bs (Nat.lt_succ_diag_r _) Hc) as Hf.
   destruct (decode_fuel (S (length bs)) t bs) eqn:E; cbn; auto.
   - left. exact (decode_lib _ _ _ _ E).
   - contradiction.
@@ -35,22 +37,62 @@ Proof.
   injection H as ->. apply decode_lib in E. discriminate.
 Qed.
 
+(* types without a length-prefixed array: every decode terminates, whatever the element types *)
+Lemma no_prefix_hprogress : forall t, has_prefix t = false -> hprogress t = true.
+Proof.
+  induction t using ty_ind_nested; cbn [has_prefix hprogress]; intros Hp; auto; try discriminate.
+  - apply forallb_forall. intros m Hin. rewrite Forall_forall in H. apply (H m Hin).
+    destruct (has_prefix (snd m)) eqn:E; [|reflexivity].
+    assert (existsb (fun m0 : key * ty => has_prefix (snd m0)) ms = true) by (apply existsb_exists; eauto). congruence.
+  - apply forallb_forall. intros m Hin. rewrite Forall_forall in H. apply (H m Hin).
+    destruct (has_prefix (snd m)) eqn:E; [|reflexivity].
+    assert (existsb (fun m0 : (key * nat) * ty => has_prefix (snd m0)) ms = true) by (apply existsb_exists; eauto). congruence.
+Qed.
+
+Theorem decode_all_terminates t fuel bs :
+  has_prefix t = false -> (length bs < fuel)%nat -> decode_fuel fuel t bs <> DOutOfFuel.
+Proof.
+  intros Hp Hl. apply decode_terminates; [now apply no_prefix_hprogress|exact Hl|]. intros H. congruence.
+Qed.
+
 (* ------------------------------------------------------------------ buffer_empty_only_at_start *)
-(* BufferEmptyError escapes [decode] only when the stream stood at the end of the buffer *)
 Theorem buffer_empty_only_at_end t fuel bs rest :
   be_ok t = true -> decode_fuel fuel t bs = DEmpty rest -> rest = [].
 Proof. intros Hb. apply buffer_empty_at_end, Hb. Qed.
 
 (* ------------------------------------------------------------------ no_short_fixed_width *)
-Theorem no_short_read t bs v rest k :
-  strict t = true -> decode t bs = Ok (v, rest) -> announced t bs = Some k -> k <= zlen bs.
+(* a well-formed type that has a width is strict *)
+Lemma be_ok_width_strict : forall t w, be_ok t = true -> width_of t = Some w -> strict t = true.
 Proof.
-  intros Hs Hd Ha. rewrite (strict_announced t bs Hs) in Ha. injection Ha as <-.
-  apply decode_ok_inv in Hd. pose proof (strict_decode t Hs (S (length bs)) bs) as H. rewrite Hd in H. cbn in H.
-  unfold zlen. lia.
+  induction t using ty_ind_nested; intros w0 Hb; cbn [be_ok] in Hb; cbn [width_of strict]; intros Hw; try reflexivity; try discriminate.
+  - destruct (0 <=? n); [reflexivity|discriminate].
+  - destruct (width_of t) as [w'|] eqn:E; [|discriminate]. exact (IHt w' Hb eq_refl).
+  - rewrite forallb_forall in Hb. apply forallb_forall. intros m Hin.
+    rewrite Forall_forall in H.
+    assert (Hm : exists w', width_of (snd m) = Some w').
+    { clear - Hw Hin. revert w0 Hw. induction ms as [|m0 ms IH]; intros w0 Hw; [contradiction|].
+      cbn [map sum_widths] in Hw. destruct (width_of (snd m0)) as [a|] eqn:Ea; [|discriminate].
+      destruct (sum_widths (map (fun m1 : key * ty => width_of (snd m1)) ms)) as [b|] eqn:Eb; [|discriminate].
+      destruct Hin as [<-|Hin]; [eauto|exact (IH Hin b eq_refl)]. }
+    destruct Hm as [w' Hw']. exact (H m Hin w' (Hb m Hin) Hw').
+  - exact Hb.
 Qed.
 
-(* the consumed bytes are exactly the width *)
+Theorem no_short_read t bs v rest k :
+  be_ok t = true -> decode t bs = Ok (v, rest) -> announced t bs = Some k -> k <= zlen bs.
+Proof.
+  intros Hb Hd Ha. apply decode_ok_inv in Hd.
+  destruct t; try (exact (str_no_short _ _ _ _ _ _ _ _ Hd Ha)); try (exact (stringn_no_short _ _ _ _ _ Hd Ha));
+    try (cbn in Ha; discriminate).
+  all: match goal with |- _ => idtac end.
+  all: try match type of Ha with announced ?T _ = _ =>
+         assert (Hs : strict T = true)
+           by (destruct (width_of T) as [w|] eqn:Ew; [exact (be_ok_width_strict T w Hb Ew)|unfold announced in Ha; rewrite Ew in Ha; discriminate]);
+         rewrite (strict_announced T bs Hs) in Ha; injection Ha as <-;
+         pose proof (strict_decode T Hs (S (length bs)) bs) as H; rewrite Hd in H; cbn [sshape] in H; unfold zlen; lia
+       end.
+Qed.
+
 Theorem strict_consumes_width t bs v rest :
   strict t = true -> decode t bs = Ok (v, rest) -> length bs = (swidth t + length rest)%nat.
 Proof.
@@ -59,19 +101,20 @@ Qed.
 
 (* DESIGN.md's statement, over the spec-side width *)
 Theorem no_short_fixed_width t w bs v rest :
-  strict t = true -> width_of t = Some w -> decode t bs = Ok (v, rest) -> (w <= length bs)%nat.
+  be_ok t = true -> width_of t = Some w -> decode t bs = Ok (v, rest) -> (w <= length bs)%nat.
 Proof.
-  intros Hs Hw Hd. rewrite (strict_width_of t Hs) in Hw. injection Hw as <-.
+  intros Hb Hw Hd. pose proof (be_ok_width_strict t w Hb Hw) as Hs. rewrite (strict_width_of t Hs) in Hw. injection Hw as <-.
   pose proof (strict_consumes_width t bs v rest Hs Hd). lia.
 Qed.
 
 (* ------------------------------------------------------------------ decode_all_exact *)
 Theorem decode_all_exact_items e (items : list (bytes * val)) :
+  is_bits e = false ->
   (forall b v, In (b, v) items -> b <> [] /\ forall fuel tail, decode_fuel fuel e (b ++ tail) = DOk v tail) ->
   (forall fuel, decode_fuel fuel e [] = DEmpty []) ->
   decode (TArrAll e) (concat (map fst items)) = Ok (VList (map snd items), []).
 Proof.
-  intros Hit Hnil. unfold decode. rewrite unbounded_array_exact; [reflexivity| |apply Hnil|lia].
+  intros Hb Hit Hnil. unfold decode. rewrite unbounded_array_exact; [reflexivity|exact Hb| |apply Hnil|lia].
   intros b v Hin. destruct (Hit b v Hin) as [H1 H2]. split; [exact H1|]. intros tail. apply H2.
 Qed.
 
@@ -83,68 +126,48 @@ Proof.
   exists vs. split; [exact Hn|]. unfold decode. rewrite Hd; [reflexivity|lia].
 Qed.
 
-(* ------------------------------------------------------------------ witnesses: what the code does *)
+(* ------------------------------------------------------------------ witnesses: what the code still does *)
 Definition ty_named (s : string) : ty := match ty_of_name (zs_of_string s) with Some t => t | None => TBool end.
 Definition UINT_ty := ty_named "UINT".
+Definition UDINT_ty := ty_named "UDINT".
 Definition STRING_ty := ty_named "STRING".
 Definition STRINGN_ty := ty_named "STRINGN".
 Definition BYTE_ty := ty_named "BYTE".
-Definition enc_of (t : ty) (v : val) : bytes := match encode t v with Ok b => b | Err _ => [] end.
 
-(* F22: Array(2, UINT).encode(None) -> TypeError *)
-Lemma w_array_encode_none : encode (TArrFixed 2 UINT_ty) VNone = Err (Foreign TypeError).
-Proof. reflexivity. Qed.
-(* DATE_AND_TIME.encode((1, 2)) -> TypeError *)
-Lemma w_datetime_encode : encode (ty_named "DATE_AND_TIME") (VTuple [VInt 1; VInt 2]) = Err (Foreign TypeError).
-Proof. reflexivity. Qed.
-(* F19: Struct(UINT a, UINT b, UINT c).encode([1]) == b"\x01\x00" *)
-Definition S3_ty := TStruct SPlain [(Some [97], UINT_ty); (Some [98], UINT_ty); (Some [99], UINT_ty)].
-Lemma w_struct_short : bad S3_ty (VList [VInt 1]) = true /\ encode S3_ty (VList [VInt 1]) = Ok [1; 0].
-Proof. split; reflexivity. Qed.
-(* n_bytes(2).encode("ab") returns the str *)
-Lemma w_nbytes_str : bad (TNBytes 2) (VStr [97; 98]) = true /\ encode (TNBytes 2) (VStr [97; 98]) = Ok [97; 98]
-                     /\ encode_result_kind (TNBytes 2) (VStr [97; 98]) = 1.
-Proof. repeat split; reflexivity. Qed.
-(* BYTE[2].encode([True] * 8) == b"\xff" *)
+(* BYTE[2].encode([True] * 8) == b"\xff" : one element instead of two, no error *)
 Lemma w_bits_array : bad (TArrFixed 2 BYTE_ty) (VList (repeat (VBool true) 8)) = true
                      /\ encode (TArrFixed 2 BYTE_ty) (VList (repeat (VBool true) 8)) = Ok [255].
 Proof. split; reflexivity. Qed.
-(* F18: Array(None, Struct()).decode(b"") never returns, whatever the fuel *)
-Lemma w_hang_struct0 : forall fuel, decode_fuel fuel (TArrAll (TStruct SPlain [])) [] = DOutOfFuel.
-Proof. apply unbounded_array_hangs. intros fuel. eexists. reflexivity. Qed.
-Lemma w_hang_arr0 : forall fuel, decode_fuel fuel (TArrAll (TArrFixed 0 UINT_ty)) [] = DOutOfFuel.
-Proof. apply unbounded_array_hangs. intros fuel. eexists. reflexivity. Qed.
-Lemma w_hang_nested : forall fuel, decode_fuel fuel (TArrAll (TArrAll UINT_ty)) [] = DOutOfFuel.
+Lemma w_bits_array_partial : bad (TArrAll BYTE_ty) (VList (repeat (VBool true) 12)) = true
+                             /\ encode (TArrAll BYTE_ty) (VList (repeat (VBool true) 12)) = Ok [255].
+Proof. split; reflexivity. Qed.
+
+(* Array(UDINT, Struct()).decode(b"\xff\xff\xff\xff"): 4294967295 rounds over an exhausted buffer *)
+Lemma w_prefix_zero_width : forall fuel,
+  decode_fuel fuel (TArrPrefix false UDINT_ty (TStruct SPlain [])) [255; 255; 255; 255] = DOutOfFuel.
 Proof.
-  intros [|f]; [reflexivity|]. cbn [decode_fuel]. unfold array_decode_all at 1.
-  rewrite (decode_all_hangs _ (VList [])); reflexivity.
+  intros fuel. change UDINT_ty with (TInt false 4). cbn [decode_fuel map]. unfold array_decode_prefix.
+  assert (Hi : int_decode false 4 [255; 255; 255; 255] = DOk (VInt 4294967295) []) by reflexivity.
+  rewrite Hi. cbn [dbind].
+  destruct (decode_n_zero_width (struct_decode SPlain []) (VDict []) (fun bs => eq_refl) (Z.to_nat (Z.min 4294967295 count_limit)) [])
+    as [vs Hvs].
+  rewrite Hvs. reflexivity.
 Qed.
-Lemma w_hang_pccc_ascii : forall fuel, decode_fuel fuel (TArrAll TPcccAscii) [] = DOutOfFuel.
-Proof. apply unbounded_array_hangs. intros fuel. eexists. reflexivity. Qed.
-Lemma w_hang_stag0 : forall fuel, decode_fuel fuel (TArrAll (TStructTag [] [] [] 4)) [] = DOutOfFuel.
-Proof. apply unbounded_array_hangs. intros fuel. eexists. reflexivity. Qed.
-Lemma w_hang_decode : decode (TArrAll (TStruct SPlain [])) [] = Err hang_marker.
-Proof. reflexivity. Qed.
-(* STRINGN with zero characters: BufferEmptyError although a byte remains *)
-Lemma w_stringn_empty : forall fuel, decode_fuel fuel STRINGN_ty [1; 0; 0; 0; 65] = DEmpty [65].
-Proof. intros fuel. reflexivity. Qed.
-(* n_bytes(0) *)
-Lemma w_nbytes0 : forall fuel, decode_fuel fuel (TNBytes 0) [97; 98] = DEmpty [97; 98].
-Proof. intros fuel. reflexivity. Qed.
-(* F17: values from fewer bytes than announced *)
-Lemma w_short_string : decode STRING_ty [5; 0; 97; 98] = Ok (VStr [97; 98], []) /\ announced STRING_ty [5; 0; 97; 98] = Some 7.
-Proof. split; reflexivity. Qed.
-Lemma w_short_nbytes : decode (TNBytes 4) [97; 98] = Ok (VBytes [97; 98], []) /\ announced (TNBytes 4) [97; 98] = Some 4.
-Proof. split; reflexivity. Qed.
-Lemma w_short_fss : decode (TFixedStr 4 false 4 4) [4; 0; 0; 0; 97; 98] = Ok (VStr [97; 98], [])
-                    /\ announced (TFixedStr 4 false 4 4) [4; 0; 0; 0; 97; 98] = Some 8.
-Proof. split; reflexivity. Qed.
-Lemma w_short_stag : decode (TStructTag [((Some [120], 0%nat), TInt true 4)] [] [] 8) [1; 0; 0; 0] = Ok (VDict [(Some [120], VInt 1)], [])
-                     /\ announced (TStructTag [((Some [120], 0%nat), TInt true 4)] [] [] 8) [1; 0; 0; 0] = Some 8.
-Proof. split; reflexivity. Qed.
-Lemma w_short_pccc_ascii : decode TPcccAscii [] = Ok (VStr [], []) /\ announced TPcccAscii [] = Some 2.
-Proof. split; reflexivity. Qed.
-(* Array(None, STRINGN) over ["ab", "", "cd"] stops at the empty string *)
-Definition stringn3 : bytes := enc_of STRINGN_ty (VStr [97; 98]) ++ enc_of STRINGN_ty (VStr []) ++ enc_of STRINGN_ty (VStr [99; 100]).
-Lemma w_stringn_array : decode (TArrAll STRINGN_ty) stringn3 = Ok (VList [VStr [97; 98]], [1; 0; 2; 0; 99; 100]).
-Proof. reflexivity. Qed.
+
+(* the fixed classes, as the model now has them *)
+Lemma w_fixed :
+  encode (TArrFixed 2 UINT_ty) VNone = Err DataError
+  /\ encode (ty_named "DATE_AND_TIME") (VTuple [VInt 1; VInt 2]) = Ok [1; 0; 0; 0; 2; 0]
+  /\ encode (ty_named "DATE_AND_TIME") (VInt 5) = Err DataError
+  /\ encode (TStruct SPlain [(Some [97], UINT_ty); (Some [98], UINT_ty)]) (VList [VInt 1]) = Err DataError
+  /\ encode (TNBytes 2) (VStr [97; 98]) = Err DataError
+  /\ decode (TArrAll (TStruct SPlain [])) [] = Ok (VList [], [])
+  /\ decode (TArrAll TPcccAscii) [97; 98] = Ok (VList [VStr [98; 97]], [])
+  /\ decode STRINGN_ty [1; 0; 0; 0; 65] = Ok (VStr [], [65])
+  /\ decode (TNBytes 0) [97; 98] = Ok (VBytes [], [97; 98])
+  /\ decode STRING_ty [5; 0; 97; 98] = Err DataError
+  /\ decode (TNBytes 4) [97; 98] = Err DataError
+  /\ decode (TFixedStr 4 false 4 4) [4; 0; 0; 0; 97; 98] = Err DataError
+  /\ decode (TStructTag [((Some [120], 0%nat), TInt true 4)] [] [] 8) [1; 0; 0; 0] = Err DataError
+  /\ decode TPcccAscii [] = Err BufferEmpty.
+Proof. repeat split; reflexivity. Qed.
